@@ -11,7 +11,10 @@
 (***************************************************************************)
 EXTENDS Integers, Sequences, TLC
 
-CONSTANTS EB, MB, Reduced, CarryHandled
+CONSTANTS EB, MB, Reduced, CarryHandled,
+          DB,                 \* bits of the per-element exponent offset in COMMON_EXPONENT mode (8 in the code)
+          SpanAfterRounding   \* TRUE: the >DMax fallback test looks at the exponents that are stored (as the
+                              \* code does); FALSE: at the exponents before the rounding carry (negative control)
 
 P2(k) == 2 ^ k
 EMax == P2(EB) - 1                      \* all-ones exponent field: Inf/NaN
@@ -39,12 +42,43 @@ Within(e, m, ey, my, mb) ==
      ELSE FALSE
 RoundsToInf(e, m, mb) == e = EMax - 1 /\ P2(MB) + m + P2(MB - mb) >= P2(MB + 1)
 
-VARIABLES s, e, m, mb
-vars == <<s, e, m, mb>>
-Init == s = 0 /\ e = 1 /\ m = 0 /\ mb = 0
+\* ---- array level: COMMON_EXPONENT stores min exponent + a DB-bit offset per
+\* element, and falls back to INDEPENDENT when the stored exponents span more
+\* than 2^DB - 1.  Rounded(e, m, mb) = <<exponent, kept bits>> as packed.
+DMax == P2(DB) - 1
+Rounded(e_, m_, w) ==
+  LET Mx == P2(MB) + m_
+      shift == MB + 1 - w
+      r0 == (Mx + P2(shift - 1)) \div P2(shift)
+      carried == r0 >= P2(w)
+  IN IF carried /\ CarryHandled THEN <<e_ + 1, (r0 \div 2) % P2(w)>> ELSE <<e_, r0 % P2(w)>>
+\* exponent each element decodes with, for a two-element array
+CommonDecodedExps(e1, m1, e2, m2, w) ==
+  LET r1 == Rounded(e1, m1, w)  r2 == Rounded(e2, m2, w)
+      lo == IF r1[1] < r2[1] THEN r1[1] ELSE r2[1]
+      hi == IF r1[1] > r2[1] THEN r1[1] ELSE r2[1]
+      plo == IF e1 < e2 THEN e1 ELSE e2
+      phi == IF e1 > e2 THEN e1 ELSE e2
+      span == IF SpanAfterRounding THEN hi - lo ELSE phi - plo
+  IN IF span > DMax THEN <<r1[1], r2[1]>>                       \* INDEPENDENT: exponents verbatim
+     ELSE <<lo + ((r1[1] - lo) % P2(DB)), lo + ((r2[1] - lo) % P2(DB))>>
+
+VARIABLES s, e, m, mb, e2, m2
+vars == <<s, e, m, mb, e2, m2>>
+Init == s = 0 /\ e = 1 /\ m = 0 /\ mb = 0 /\ e2 = 0 /\ m2 = 0
 Pick == /\ mb = 0 /\ mb' \in Reduced /\ s' \in {0, 1} /\ e' \in 1..(EMax - 1) /\ m' \in 0..(P2(MB) - 1)
-Next == Pick
+        /\ e2' = 0 /\ m2' = 0
+\* a second element: every exponent, mantissa classes none / carrying / random-ish
+PickPair == /\ mb = 0 /\ mb' \in Reduced /\ s' = 0 /\ e' \in 1..(EMax - 2) /\ m' \in 0..(P2(MB) - 1)
+            /\ e2' \in 1..(EMax - 2) /\ m2' \in {0, 1, P2(MB) - 1, P2(MB - 1)}
+Next == Pick \/ PickPair
 Spec == Init /\ [][Next]_vars
+
+\* packaging in an array never changes what an element decodes to
+ArrayContract == (mb # 0 /\ e2 # 0) =>
+  LET d == CommonDecodedExps(e, m, e2, m2, mb) IN
+  /\ d[1] = Rounded(e, m, mb)[1]
+  /\ d[2] = Rounded(e2, m2, mb)[1]
 
 Contract == mb # 0 =>
   LET y == Codec(s, e, m, mb) IN
@@ -58,4 +92,11 @@ Mants == {"zero", "one", "ones", "carry23", "carry10", "carry4", "half23", "half
 Specials == {"pzero", "nzero", "pinf", "ninf", "qnan", "snan", "nanpayload", "minsub", "maxsub", "negsub"}
 ASSUME \A sg \in {0, 1}, ex \in Exps, mt \in Mants : PrintT(<<"FCLASS", sg, ex, mt>>)
 ASSUME \A sp \in Specials : PrintT(<<"FSPECIAL", sp>>)
+\* exponent spans on both sides of the COMMON_EXPONENT offset byte, with top /
+\* bottom elements that do and do not carry: <<"FSPAN", base, span, top, low>>
+SpanBases == {-1022, -300, -128, 0, 511, 766}
+Spans == {254, 255, 256, 257}
+SpanMants == {"zero", "ones", "carry23", "carry10", "carry4", "rand"}
+ASSUME \A b \in SpanBases, sp \in Spans, t \in SpanMants, lw \in {"zero", "ones", "carry10"} :
+          b + sp <= 1023 => PrintT(<<"FSPAN", b, sp, t, lw>>)
 =============================================================================
